@@ -103,6 +103,9 @@ Proof.
   - (* TDecresc *) destruct (_ <? _); [discriminate|]. intros E; injection E as <-. exact H.
   - (* TPlay *) intros E. apply (li_exec_play ec s args lineno s2 Hec H E).
   - (* TMetaText *) destruct (_ && _); [|discriminate]. intros E; injection E as <-. exact H.
+  - (* TTempoChange *) intros E. apply (exec_tempo_change_inv logs_inv) in E; [exact E| | |exact H].
+    + intros s0 v H0. exact H0.
+    + intros s0 f H0. exact H0.
 Qed.
 
 (* ---- exec_f, run_source, compile ---- *)
